@@ -104,11 +104,20 @@ def parsePermitopen (value : Str) : Option (Str × Option Int) :=
 def handlerOf (name : Str) : Option String :=
   (Gen.C17.akHandlers.find? (·.1.toList = name)).map (·.2)
 
-/-- `OptionsParser._add_option` with the handlers of `_SSHAuthorizedKeyEntry` -/
-def addOption (x509 : Bool) (o : Opts) (option : Str) : Except String Opts :=
+/-- `option.lower()` on an option name (ASCII letters; the generated names hold no other cased letters) -/
+def lowerName (name : Str) : Str := name.map Char.toLower
+
+/-- the name an option is stored and looked up under.  After the fix "match authorized_keys option names
+    case-insensitively" `_add_option` folds the name with `.lower()` (OpenSSH compares option names with
+    `strncasecmp`); `Gen.C17.optNamesFolded` is read from the tree under check. -/
+def foldName (name : Str) : Str := if Gen.C17.optNamesFolded then lowerName name else name
+
+/-- `OptionsParser._add_option` with the handlers of `_SSHAuthorizedKeyEntry`, for a given name folding -/
+def addOptionWith (fold : Str → Str) (x509 : Bool) (o : Opts) (option : Str) : Except String Opts :=
   if option.head? = some '=' then .error "ValueError"
   else if option.contains '=' then
     let (name, value) := splitEq option
+    let name := fold name
     match handlerOf name with
     | none =>
       match optGet o name with
@@ -150,7 +159,15 @@ def addOption (x509 : Bool) (o : Opts) (option : Str) : Except String Opts :=
           | some (.subjects l) => .ok (optSet o name (.subjects (l ++ [value])))
           | some _ => .error "AttributeError"
       else .error "model:unknown-handler"
-  else .ok (optSet o option .flag)
+  else .ok (optSet o (fold option) .flag)
+
+/-- `OptionsParser._add_option` as it is in the tree under check -/
+def addOption (x509 : Bool) (o : Opts) (option : Str) : Except String Opts :=
+  addOptionWith foldName x509 o option
+
+/-- before the fix: names stored exactly as written, so `From=`, `No-Pty`, `Command=` missed their handlers -/
+def addOptionPreFix (x509 : Bool) (o : Opts) (option : Str) : Except String Opts :=
+  addOptionWith id x509 o option
 
 def addOptions (x509 : Bool) : Opts → List Str → Except String Opts
   | o, [] => .ok o
